@@ -1,6 +1,7 @@
 package sim
 
 import (
+	"context"
 	"fmt"
 	"io"
 	"time"
@@ -117,6 +118,17 @@ func runTeardown(w *World, rs *RunSpec) {
 		return
 	}
 	n := 1 + c.Intn(5, "nrpc")
+	if rs.P("sibling", 0) == 1 && t.Pending != nil && t.Outer == nil && t.RevServer == nil {
+		// a second tunnel started from the same pending channel, after the
+		// first: the two are independent, ending one is not the other's business
+		sctx, scancel := context.WithCancel(w.RootCtx)
+		if sib, err := t.Pending.Start(sctx); err == nil {
+			t.Sibling, t.SiblingCancel = sib, scancel
+			w.Desc["sibling_channel"] = true
+		} else {
+			scancel()
+		}
+	}
 	plans := phasePlans(c, n, t.Idx, cfg.FC == FCBoth)
 	var descs []any
 	for _, p := range plans {
@@ -193,6 +205,13 @@ func runTeardown(w *World, rs *RunSpec) {
 	points := w.frameCount
 	w.frameTriggers = nil // the fault belongs to the workload phase only
 	w.DrainAndProbe()
+	if t.Sibling != nil && cause == CauseClose {
+		select {
+		case <-t.Sibling.Done():
+			simrt.Emit(simrt.Event{Kind: EvCheckpoint, S: "sibling-ended-with-its-brother", S2: errString(t.Sibling.Err())})
+		default:
+		}
+	}
 	fired := false
 	for _, e := range simrt.EventsSoFar() {
 		if e.Kind == EvFault && e.S == "teardown" {
@@ -222,6 +241,16 @@ func runTeardown(w *World, rs *RunSpec) {
 }
 
 // OracleC04: termination reaches both ends, ends every RPC, nothing hangs.
+// oracleSibling: ending a tunnel does not end a tunnel started from the same
+// pending channel (evaluated by OracleC04).
+func oracleSibling(w *World, h *History, det map[string]string) {
+	for _, e := range h.Evs {
+		if e.Kind == EvCheckpoint && e.S == "sibling-ended-with-its-brother" {
+			w.AddViolation("C04", "sibling-tunnel-ended", "a second channel started from the same pending channel is done ("+e.S2+") after the first one was ended; nothing ended it", det, e.Seq)
+		}
+	}
+}
+
 func OracleC04(w *World, h *History) {
 	var fault *simrtEvent
 	for i := range h.Faults {
@@ -259,6 +288,7 @@ func OracleC04(w *World, h *History) {
 		hol = "no"
 	}
 	det := map[string]string{"cause": cause, "hol": hol}
+	oracleSibling(w, h, det)
 	dd := func(extra ...string) map[string]string {
 		d := map[string]string{}
 		for k, v := range det {
